@@ -126,6 +126,9 @@ class Taint:
                 return self.clean(e.func.value, env) and all(self.clean(a, env) for a in e.args) and all(self.clean(k.value, env) for k in e.keywords)
             if fn in ("len", "int", "bool"):
                 return True
+            if fn in ("min", "max", "abs") and e.args and not e.keywords:
+                # returns one of its (clean) arguments, or a number: a clamped heading level stays clean
+                return all(self.clean(a, env) for a in e.args)
             # a module-level helper: its single return expression is analysed with its parameters
             # clean iff the arguments are (so an extracted escape / replace helper is seen through)
             if isinstance(e.func, ast.Name) and e.func.id in self.f.module.functions and not e.keywords:
